@@ -35,7 +35,7 @@ def run(ctx):
     import props.C01 as C01
     d, rng = ctx.driver, ctx.rng
     quick = ctx.tier == "quick"
-    nhist = 25 if quick else 400
+    nhist = 25 if quick else 1500
     for h in range(nhist):
         norb = rng.choice([1, 2, 2, 3])
         # two sector sets A and B
